@@ -109,9 +109,17 @@ func (p *schedPD) GetTS(ctx context.Context) (int64, int64, error) {
 	if d := sched.Point(a, sched.KTSO, "tso-issue", nil); d.Kind == sched.Abort {
 		return 0, 0, errAborted
 	}
+	// the request honours its context: cancelled before PD served it -> nothing is issued; cancelled while
+	// the answer is outstanding -> the answer is dropped and the context's error returned
+	if err := ctx.Err(); err != nil {
+		return 0, 0, err
+	}
 	ph, lg := p.issue(a)
 	if d := sched.Point(a, sched.KTSO, "tso-deliver", nil); d.Kind == sched.Abort {
 		return 0, 0, errAborted
+	}
+	if err := ctx.Err(); err != nil {
+		return 0, 0, err
 	}
 	p.mu.Lock()
 	p.delivered++
@@ -141,11 +149,18 @@ func (p *schedPD) GetTSAsync(ctx context.Context) tso.TSFuture {
 			f.err = errAborted
 			return
 		}
-		f.ph, f.lg = p.issue(a)
+		if f.err = ctx.Err(); f.err != nil {
+			return
+		}
+		ph, lg := p.issue(a)
 		if d := sched.Point(a, sched.KTSO, "tso-deliver(async)", nil); d.Kind == sched.Abort {
 			f.err = errAborted
 			return
 		}
+		if f.err = ctx.Err(); f.err != nil {
+			return
+		}
+		f.ph, f.lg = ph, lg
 		p.mu.Lock()
 		p.delivered++
 		p.mu.Unlock()
@@ -228,6 +243,9 @@ type callRec struct {
 	Until   int64
 	// clock at the end of the call (virtual ns)
 	Clock int64
+	// the call's own context (scenarios of the cancellation family): cancelled by an explorer transition
+	cancel    context.CancelFunc
+	Cancelled bool
 }
 
 type world struct {
@@ -280,6 +298,13 @@ func (w *world) call(a int, op Op) bool {
 	}
 	r := &callRec{Actor: a, Op: op}
 	ctx := context.Background()
+	if w.sc.cancels && (op.K == "val" || op.K == "ts" || op.K == "async") {
+		// every call has its own context: cancelling one caller's call is not another's cancellation
+		var cancel context.CancelFunc
+		ctx, cancel = context.WithCancel(ctx)
+		defer cancel()
+		r.cancel = cancel
+	}
 	switch op.K {
 	case "val", "vsa":
 		// choose the read timestamp before the call starts
@@ -372,6 +397,7 @@ type scen struct {
 	tick       bool          // run the oracle's updateTS goroutine (its ticker is an explorer transition)
 	ints       bool          // integer atomics are points as well
 	validation bool
+	cancels    bool // "cancel the context of caller k's current call" is an explorer transition (cost: 1 fault)
 	w          *world
 }
 
@@ -507,7 +533,30 @@ func (s *scen) Extra() []sched.Choice {
 			w.adaptive = append(w.adaptive, cur)
 		}
 	}
-	return s.tickChoice()
+	return append(s.cancelChoices(), s.tickChoice()...)
+}
+
+// cancelChoices offers, for every caller that is inside a call with a context of its own, the
+// cancellation of that context (once per call).
+func (s *scen) cancelChoices() []sched.Choice {
+	if !s.cancels {
+		return nil
+	}
+	w := s.w
+	var out []sched.Choice
+	w.mu.Lock()
+	defer w.mu.Unlock()
+	for _, r := range w.recs {
+		if r.cancel == nil || r.Done || r.Cancelled || r.Start == 0 {
+			continue
+		}
+		r := r
+		out = append(out, sched.Choice{Key: fmt.Sprintf("cancel:a%d", r.Actor), FCost: 1, Fn: func() {
+			r.Cancelled = true
+			r.cancel()
+		}})
+	}
+	return out
 }
 
 func (s *scen) StateKey() string { return "" }
@@ -615,7 +664,8 @@ func (s *scen) Check(x *sched.Exec) []sched.Violation {
 			// (4) accepts every ts PD had issued before the call started; rejects every ts beyond what PD
 			// has issued when the call returns (math.MaxUint64 without the stale-read flag is the
 			// "read latest" sentinel, not a timestamp: no demand)
-			if r.WasIssued && r.Err != nil {
+			// (a caller whose own context was cancelled may return the context's error)
+			if r.WasIssued && r.Err != nil && !r.Cancelled {
 				add("validate:rejected-issued-ts:"+valVariant(r.Op), fmt.Sprintf("a%d ValidateReadTS(%s) which PD had issued before the call: %v", r.Actor, idx(r.ReadTS), r.Err))
 			}
 			if r.ReadTS > r.MaxAtEnd && r.Err == nil && !(r.ReadTS == math.MaxUint64 && !(r.Op.S || r.Op.K == "vsa")) {
@@ -645,6 +695,9 @@ func (s *scen) outcome(x *sched.Exec) string {
 	defer w.mu.Unlock()
 	for _, r := range w.recs {
 		fmt.Fprintf(&sb, "a%d:%s=", r.Actor, r.Op.Name())
+		if r.Cancelled {
+			sb.WriteString("(cancelled)")
+		}
 		if !r.Done {
 			sb.WriteString("open ")
 			continue
